@@ -231,6 +231,22 @@ func init() {
 	reg("vrt.Symbolic", func(fr *frame, args []value) value { return true })
 	reg("vrt.TempDir", func(fr *frame, args []value) value { return fr.i.fs.tempDir() })
 	reg("vrt.Cleanup", noop)
+	reg("vrt.SnapshotDir", func(fr *frame, args []value) value {
+		fs := fr.i.fs
+		src := fs.lookup(args[0].(string))
+		dst := fs.tempDir()
+		if src == nil || !src.dir {
+			panic(engineAbort{psEngineError, "SnapshotDir: no such directory"})
+		}
+		d := fs.lookup(dst)
+		for name, n := range src.kids {
+			if n.dir {
+				continue
+			}
+			d.kids[name] = fs.snapshotNode(n)
+		}
+		return dst
+	})
 	reg("vrt.SchedMode", func(fr *frame, args []value) value {
 		fr.i.sched.maxPreempt = int(asInt64(args[0]))
 		fr.i.sched.preempts = 0
@@ -238,6 +254,18 @@ func init() {
 	})
 	reg("vrt.ExploreOrder", func(fr *frame, args []value) value { fr.i.sched.exploreOrder = args[0].(bool); return nil })
 	reg("vrt.EagerSpawn", func(fr *frame, args []value) value { fr.i.sched.eagerSpawn = args[0].(bool); return nil })
+	reg("vrt.KillOthers", func(fr *frame, args []value) value {
+		// process exit: every other goroutine is gone (they are never scheduled again)
+		s := fr.i.sched
+		for _, t := range s.threads {
+			if t != s.cur && !t.done {
+				t.waiting = func() bool { return false }
+				t.why = "killed (process exit)"
+				t.dead = true
+			}
+		}
+		return nil
+	})
 	reg("vrt.Drain", func(fr *frame, args []value) value { fr.i.sched.drain(); return nil })
 	reg("vrt.Yield", func(fr *frame, args []value) value { fr.i.sched.yield(args[0].(string)); return nil })
 	reg("vrt.DeadlockIsViolation", func(fr *frame, args []value) value { fr.i.sched.deadlockIsViolation = true; return nil })
